@@ -466,3 +466,8 @@ def _positive_control(ck):
     if not alive:
         raise Undecided("effect matcher failed its embedded positive example")
     ck.count("positive controls matched")
+
+
+def run_thorough(ck, prog):
+    from props import thorough
+    ck.attempt(thorough.whole_package_effects, ck, prog)
